@@ -1,5 +1,5 @@
 (* CoreRoundTrip.v — lemmas for property C01: load (dump v) = v on the domain rtd. *)
-From DW Require Import CoreRT T_CoreDumpHooks CharFacts CoreDumpProofs CoreLoadProofs.
+From DW Require Import CoreRT T_CoreDumpHooks CharFacts CoreDumpProofs CoreLoadProofs CoreRTAny CoreRTLists.
 From Coq Require Import ZArith Lia.
 
 (* ---- the Z rewrite is undone by the loader ------------------------------------------ *)
@@ -268,6 +268,10 @@ Proof.
     try (destruct k; discriminate).
 Qed.
 
+Lemma wires_distinct_data c fts seen r :
+  wires_distinct seen (TData c fts :: r) = true -> (exists tg, c_tag c = Some tg) /\ wires_distinct seen r = true.
+Proof. cbn [wires_distinct]. destruct (c_tag c); [eauto | discriminate]. Qed.
+
 Lemma wires_distinct_notin ts : forall seen t k,
   wires_distinct seen ts = true -> In t ts -> wire_of t = Some k -> existsb (wirek_eqb k) seen = false.
 Proof.
@@ -281,7 +285,7 @@ Proof.
       pose proof (IH _ _ _ Hd Hin Hw) as Hn. cbn [existsb] in Hn. apply orb_false_iff in Hn. tauto.
     + destruct (nonparser_cases _ Ep) as [->|(c & fts & ->)].
       * cbn [wires_distinct] in Hd. eapply IH; eassumption.
-      * cbn [wires_distinct wire_of] in Hd. discriminate.
+      * apply wires_distinct_data in Hd as [_ Hd]. eapply IH; eassumption.
 Qed.
 
 Lemma union_scan_pick all w k t : forall ts seen,
@@ -306,7 +310,65 @@ Proof.
     + rewrite (wire_parser _ _ Hw) in Ep. discriminate.
     + destruct (nonparser_cases _ Ep) as [->|(c & fts & ->)].
       * cbn [wires_distinct] in Hd. eapply IH; eassumption.
-      * cbn [wires_distinct wire_of] in Hd. discriminate.
+      * apply wires_distinct_data in Hd as [_ Hd]. eapply IH; eassumption.
+Qed.
+
+(* ---- tagged dataclass members: no parser claims the dumped dict, the tag selects the class ---------- *)
+Lemma union_scan_skip all w : forall ts seen,
+  wires_distinct seen ts = true -> existsb is_wdict ts = false -> shape WDict w ->
+  union_scan lc L w all ts = tag_dispatch lc L w all.
+Proof.
+  induction ts as [|t0 ts IH]; intros seen Hd Hnw Hs; [reflexivity|].
+  cbn [existsb] in Hnw. apply orb_false_iff in Hnw as [Hn0 Hnw].
+  cbn [union_scan]. destruct (is_parser_member t0) eqn:Ep.
+  - destruct (parser_wire_or_bad _ _ _ Ep Hd) as [k0 Hw0].
+    rewrite (contains_wire t0 k0 WDict w Hw0 Hs). cbn [bind].
+    rewrite (wires_distinct_cons _ _ _ _ Hw0) in Hd. apply andb_true_iff in Hd as [_ Hd].
+    assert (E : wirek_eqb k0 WDict = false).
+    { unfold is_wdict in Hn0. rewrite Hw0 in Hn0. destruct k0; try reflexivity. discriminate. }
+    rewrite E. eapply IH; eassumption.
+  - destruct (nonparser_cases _ Ep) as [->|(c & fts & ->)].
+    + cbn [wires_distinct] in Hd. eapply IH; eassumption.
+    + apply wires_distinct_data in Hd as [_ Hd]. eapply IH; eassumption.
+Qed.
+
+Lemma tag_scan_none w tg : forall l, mem_str tg (tags_of l) = false -> tag_scan L w tg l = None.
+Proof.
+  induction l as [|t l IH]; intros H; [reflexivity|]. cbn [tag_scan tags_of] in *.
+  destruct (tag_of t) as [g|] eqn:Eg.
+  - cbn [mem_str] in H. apply orb_false_iff in H as [H1 H2]. rewrite (IH H2).
+    rewrite (pstr_eqb_false_sym _ _ H1). reflexivity.
+  - rewrite (IH H). reflexivity.
+Qed.
+
+Lemma tag_scan_pick w tg t : forall ts,
+  str_nodup (tags_of ts) = true -> In t ts -> tag_of t = Some tg -> tag_scan L w tg ts = Some (L t w).
+Proof.
+  induction ts as [|t0 ts IH]; intros Hn Hin Ht; [destruct Hin|].
+  cbn [tag_scan]. cbn [tags_of] in Hn.
+  destruct Hin as [->|Hin].
+  - rewrite Ht in Hn. cbn [str_nodup] in Hn. apply andb_true_iff in Hn as [Hn _].
+    rewrite (tag_scan_none w tg ts) by (destruct (mem_str tg (tags_of ts)); [discriminate|reflexivity]).
+    rewrite Ht, pstr_eqb_refl. reflexivity.
+  - assert (Hn' : str_nodup (tags_of ts) = true).
+    { destruct (tag_of t0); [cbn [str_nodup] in Hn; apply andb_true_iff in Hn; tauto | exact Hn]. }
+    rewrite (IH Hn' Hin Ht). reflexivity.
+Qed.
+
+(* every dumped field key is a str that resolves to a field (so it is not the ignored tag key) *)
+Lemma field_items_keys c : forall fs rs i items,
+  field_items dc fs rs = Ok items -> keys_resolve dc lc c fs i = true ->
+  Forall (fun kv => exists k, fst kv = VStr k /\ exists j, resolve lc c k = KField j) items.
+Proof.
+  induction fs as [|f fs IH]; intros rs i items Hi Hk; destruct rs as [|r rs]; cbn [field_items] in Hi; try discriminate.
+  - inversion Hi; constructor.
+  - cbn [keys_resolve] in Hk. apply andb_true_iff in Hk as [Hk1 Hk].
+    destruct (key_of dc f) as [k|] eqn:Ek; [|discriminate]. cbn [bind] in Hi.
+    destruct r as [w|]; [|discriminate]. cbn [bind] in Hi.
+    destruct (field_items dc fs rs) as [rest|] eqn:Er; [|discriminate]. cbn [bind] in Hi. inversion Hi; subst.
+    constructor.
+    + exists k. split; [reflexivity|]. destruct (resolve lc c k) as [j|]; [eauto|discriminate].
+    + eapply IH; eauto.
 Qed.
 
 (* ---- tuples / namedtuples: positional zip ----------------------------------------------- *)
@@ -406,7 +468,7 @@ Lemma load_union_member ts t w k :
   union_ok ts = true -> In t ts -> wire_of t = Some k -> shape k w -> w <> VNone ->
   L (TUnion ts) w = L t w.
 Proof.
-  intros Hok Hin Hw Hs Hn. unfold union_ok in Hok. apply andb_true_iff in Hok as [Hd Hnf].
+  intros Hok Hin Hw Hs Hn. unfold union_ok in Hok. apply andb_true_iff in Hok as [Hok _]. apply andb_true_iff in Hok as [Hd Hnf].
   pose proof (union_scan_pick ts w k t ts [] Hd Hin Hw Hs) as Hpick.
   cbn [load]. destruct ts as [|a [|b [|c r]]].
   - destruct Hin.
@@ -427,9 +489,10 @@ Lemma nt_nondict n fts w :
        (fun vals => rmap (VNT n) (fill fts (zip_slots vals (List.length fts))))).
 Proof. intros H. destruct w; try reflexivity. exfalso. eapply H. reflexivity. Qed.
 
-(* a member with a wire kind exists for every non-None member of an admissible Union *)
+(* every non-None member of an admissible Union has a wire kind or is a tagged dataclass *)
 Lemma union_member_wire ts : forall seen t,
-  wires_distinct seen ts = true -> In t ts -> t <> TNone -> exists k, wire_of t = Some k.
+  wires_distinct seen ts = true -> In t ts -> t <> TNone ->
+  (exists k, wire_of t = Some k) \/ (exists c fts tg, t = TData c fts /\ c_tag c = Some tg).
 Proof.
   induction ts as [|t0 ts IH]; intros seen t Hd Hin Hn; [destruct Hin|].
   destruct (is_parser_member t0) eqn:Ep.
@@ -438,7 +501,42 @@ Proof.
     rewrite (wires_distinct_cons _ _ _ _ Hw0) in Hd. apply andb_true_iff in Hd as [_ Hd]. eapply IH; eassumption.
   - destruct (nonparser_cases _ Ep) as [->|(c & fts & ->)].
     + destruct Hin as [<-|Hin]; [congruence|]. cbn [wires_distinct] in Hd. eapply IH; eassumption.
-    + cbn [wires_distinct wire_of] in Hd. discriminate.
+    + apply wires_distinct_data in Hd as [[tg Htg] Hd]. destruct Hin as [<-|Hin]; [right; eauto 6|]. eapply IH; eassumption.
+Qed.
+
+Lemma load_union_data ts t c fts tg xs w :
+  t = TData c fts ->
+  union_ok ts = true -> In t ts -> c_tag c = Some tg -> keys_ok dc lc c = true ->
+  D (VInst c xs) = Ok w -> L (TUnion ts) w = L t w.
+Proof.
+  intros Et Hok Hin Htag Hk Hd.
+  unfold union_ok in Hok. apply andb_true_iff in Hok as [Hok Hdm]. apply andb_true_iff in Hok as [Hdist Hnf].
+  unfold data_members_ok in Hdm.
+  assert (Hisd : existsb is_data ts = true) by (apply existsb_exists; exists t; split; [assumption | subst t; reflexivity]).
+  rewrite Hisd in Hdm. cbn [negb orb] in Hdm. apply andb_true_iff in Hdm as [Hnw Hnd].
+  apply negb_true_iff in Hnw.
+  rewrite dump_eq in Hd. fold (H0 dc) in Hd. rewrite disp_inst in Hd.
+  apply rmap_ok in Hd as (items & Hi & ->).
+  unfold keys_ok in Hk. rewrite Htag in Hk. apply andb_true_iff in Hk as [Hkr Hk2]. apply andb_true_iff in Hk2 as [Htk Hig].
+  apply pstr_eqb_eq in Htk.
+  pose proof (field_items_keys c _ _ _ _ Hi Hkr) as Hkeys.
+  assert (Hs : shape WDict (VDict DDict false (add_tag dc c items))) by (eexists; reflexivity).
+  assert (Hget : dict_get (VStr (l_tag_key lc)) (add_tag dc c items) = Some (VStr tg)).
+  { unfold add_tag. rewrite Htag, Htk. apply dict_get_tail.
+    eapply Forall_impl; [|exact Hkeys]. intros kv (k & Ek & j & Hj). exists k. split; [assumption|].
+    intros Heq. rewrite Heq in Hj. rewrite Hj in Hig. discriminate. }
+  assert (Htt : tag_of t = Some tg) by (subst t; exact Htag).
+  assert (Hscan : union_scan lc L (VDict DDict false (add_tag dc c items)) ts ts = L t (VDict DDict false (add_tag dc c items))).
+  { rewrite (union_scan_skip ts _ ts [] Hdist Hnw Hs). cbn [tag_dispatch]. rewrite Hget.
+    rewrite (tag_scan_pick _ tg t ts Hnd Hin Htt). reflexivity. }
+  cbn [load]. destruct ts as [|a [|b [|c3 r]]].
+  - destruct Hin.
+  - exact Hscan.
+  - destruct (is_tnone a || is_tnone b) eqn:E.
+    + cbn [none_first2] in Hnf. destruct (is_tnone a) eqn:Ea; [discriminate|]. cbn [orb] in E.
+      destruct Hin as [Ha|[Hb|[]]]; [subst a; reflexivity | subst b; subst t; discriminate].
+    + exact Hscan.
+  - exact Hscan.
 Qed.
 
 Lemma shape_of_dump t v k w : R t v -> wire_of t = Some k -> D v = Ok w -> shape k w.
@@ -473,11 +571,69 @@ Proof.
   intros IH H. eapply Forall_impl; [|exact H]. intros x Hx. destruct (IH x Hx) as (w & Hd & Hl & _). eauto.
 Qed.
 
+(* ---- TypedDict: a plain dict through dump_with_dict (keys untouched), TypedDictParser back ---------- *)
+Definition Qtd (kt : pstr * ty) (kv : pv * pv) : Prop :=
+  fst kv = VStr (fst kt) /\ exists w, D (snd kv) = Ok w /\ L (snd kt) w = Ok (snd kv).
+Definition Qin (Wall : list (pv * pv)) (kt : pstr * ty) (kv : pv * pv) : Prop :=
+  fst kv = VStr (fst kt) /\ exists w, In (VStr (fst kt), w) Wall /\ L (snd kt) w = Ok (snd kv).
+Definition pairD (kv : pv * pv) : res (pv * pv) :=
+  bind (D (fst kv)) (fun k' => bind (D (snd kv)) (fun v' => Ok (k', v'))).
+
+Lemma Forall2_Qtd (l : list (pstr * ty)) kvs :
+  Forall (fun kt => forall v, R (snd kt) v -> RT (snd kt) v) l ->
+  Forall2 (fun kt kv => fst kv = VStr (fst kt) /\ R (snd kt) (snd kv)) l kvs -> Forall2 Qtd l kvs.
+Proof.
+  intros HF H2. induction H2 as [|kt kv l kvs [Ek Hr] _ IH]; [constructor|].
+  inversion HF as [|? ? Ha HFr]; subst. constructor; [|apply IH; assumption].
+  destruct (Ha _ Hr) as (w & Hd & Hl & _). split; [assumption|]. eauto.
+Qed.
+
+Lemma td_dump l kvs : Forall2 Qtd l kvs ->
+  exists ws, seqR (map pairD kvs) = Ok ws /\ map fst ws = map fst kvs /\
+    forall pre suf, Forall2 (Qin (pre ++ ws ++ suf)) l kvs.
+Proof.
+  induction 1 as [|kt [a b] l kvs (Ek & w & Hd & Hl) _ (ws & H1 & H2 & H3)].
+  - exists []. repeat split; constructor.
+  - cbn [fst snd] in *. subst a. exists ((VStr (fst kt), w) :: ws). cbn [map seqR]. unfold pairD at 1. cbn [fst snd].
+    rewrite dump_scalar by reflexivity. cbn [bind]. rewrite Hd. cbn [bind]. rewrite H1.
+    split; [reflexivity|]. split; [cbn [map fst]; rewrite H2; reflexivity|].
+    intros pre suf. constructor.
+    + split; [reflexivity|]. exists w. split; [|assumption]. apply in_or_app. right. left. reflexivity.
+    + specialize (H3 (pre ++ [(VStr (fst kt), w)]) suf). rewrite <- app_assoc in H3. exact H3.
+Qed.
+
+Lemma td_req_rt Wall : NoDup (map fst Wall) -> forall req kvs1, Forall2 (Qin Wall) req kvs1 -> td_req L Wall req = Ok kvs1.
+Proof.
+  intros Hn. induction 1 as [|kt [a b] req kvs (Ek & w & Hin & Hl) _ IH]; [reflexivity|].
+  cbn [fst snd] in *. subst a. cbn [td_req]. rewrite (dict_get_in _ _ _ Hn Hin). rewrite Hl. cbn [bind]. rewrite IH. reflexivity.
+Qed.
+
+Lemma td_opt_rt Wall : NoDup (map fst Wall) -> forall opt' opt, sublist opt' opt -> forall kvs2,
+  Forall2 (Qin Wall) opt' kvs2 -> NoDup (map fst opt) ->
+  (forall kt, In kt opt -> In (VStr (fst kt)) (map fst Wall) -> In kt opt') ->
+  td_opt L Wall opt = Ok kvs2.
+Proof.
+  intros Hn opt' opt Hs. induction Hs as [|x l' l Hs IH|x l' l Hs IH]; intros kvs2 H2 Hnd Habs.
+  - inversion H2; subst. reflexivity.
+  - inversion H2 as [|? kv ? kvs HQ H2']; subst. destruct kv as [a b]. destruct HQ as (Ek & w & Hin & Hl).
+    cbn [fst snd] in *. subst a.
+    cbn [td_opt]. rewrite (dict_get_in _ _ _ Hn Hin). rewrite Hl. cbn [bind].
+    cbn [map] in Hnd. inversion Hnd as [|? ? Hx Hnd']; subst.
+    rewrite (IH kvs H2' Hnd'); [reflexivity|].
+    intros kt Hkt Hk. destruct (Habs kt (or_intror Hkt) Hk) as [<-|H]; [|exact H].
+    exfalso. apply Hx. apply in_map. exact Hkt.
+  - cbn [td_opt]. cbn [map] in Hnd. inversion Hnd as [|? ? Hx Hnd']; subst.
+    rewrite dict_get_notin.
+    + apply IH; [assumption|assumption|]. intros kt Hkt Hk. apply Habs; [right; assumption|assumption].
+    + intros Hk. pose proof (Habs x (or_introl eq_refl) Hk) as Hin'.
+      apply Hx. apply in_map. eapply sublist_In; eassumption.
+Qed.
+
 Theorem rt_main : forall t v, R t v -> RT t v.
 Proof.
   induction t as [| | | | | |m|k|e ms|k t IH|ts IH|t IH|k kt vt IHk IHv|t IH|ts IH|vs|n fts IH|tid req opt IHr IHo|c fts IH]
     using ty_ind'; intros v Hr.
-  - inversion Hr; subst. exists v. split; [apply dump_scalar; assumption|]. split; [reflexivity|tauto].
+  - inversion Hr; subst. exists v. split; [apply dump_any; assumption|]. split; [reflexivity|tauto].
   - inversion Hr; subst. exists VNone. split; [apply dump_scalar; reflexivity|]. split; [reflexivity|tauto].
   - inversion Hr; subst. eexists. split; [apply dump_scalar; reflexivity|]. split; [reflexivity|tauto].
   - inversion Hr; subst. eexists. split; [apply dump_scalar; reflexivity|]. split; [reflexivity|tauto].
@@ -487,7 +643,7 @@ Proof.
   - inversion Hr; subst. apply rt_tok. assumption.
   - inversion Hr; subst. apply rt_enum; assumption.
   - (* TSeq *)
-    inversion Hr as [| | | | | | | |? ? xs Hk Hxs Hset| | | | | | | | | |]; subst.
+    inversion Hr as [| | | | | | | |? ? xs Hk Hxs Hset| | | | | | | | | | |]; subst.
     destruct (seqR_rt D (L t) xs (Forall_IH t xs IH Hxs)) as (ws & H1 & H2 & _).
     exists (VSeq SList false ws). split; [|split; [|discriminate]].
     + rewrite dump_eq. fold (H0 dc). rewrite disp_seq. destruct k; try discriminate; rewrite H1; reflexivity.
@@ -495,7 +651,7 @@ Proof.
       destruct (is_set_kind k) eqn:Es; [|reflexivity].
       destruct (Hset eq_refl) as [Hn Hh]. rewrite Hh, (dedupe_id _ Hn). reflexivity.
   - (* TTuple *)
-    inversion Hr as [| | | | | | | | |? xs Hne H2| | | | | | | | |]; subst.
+    inversion Hr as [| | | | | | | | |? xs Hne H2| | | | | | | | | |]; subst.
     destruct (zip_rt ts xs (Forall2_IH (fun t => t) ts xs IH H2)) as (ws & H1 & Hz & Hlen).
     exists (VSeq STuple false ws). split; [|split; [|discriminate]].
     + rewrite dump_eq. fold (H0 dc). rewrite disp_seq. rewrite H1. reflexivity.
@@ -504,13 +660,13 @@ Proof.
       pose proof (required_count_le (t0 :: ts0)) as Hrc. apply Nat.leb_le in Hrc. rewrite Hrc, Nat.leb_refl.
       cbn [andb]. rewrite Hz. reflexivity.
   - (* TVarTuple *)
-    inversion Hr as [| | | | | | | | | |? xs Hxs| | | | | | | |]; subst.
+    inversion Hr as [| | | | | | | | | |? xs Hxs| | | | | | | | |]; subst.
     destruct (seqR_rt D (L t) xs (Forall_IH t xs IH Hxs)) as (ws & H1 & H2 & _).
     exists (VSeq STuple false ws). split; [|split; [|discriminate]].
     + rewrite dump_eq. fold (H0 dc). rewrite disp_seq. rewrite H1. reflexivity.
     + cbn [load iter_of bind]. rewrite H2. reflexivity.
   - (* TDict *)
-    inversion Hr as [| | | | | | | | | | |? ? ? kvs Hkv Hn Hh| | | | | | |]; subst.
+    inversion Hr as [| | | | | | | | | | |? ? ? kvs Hkv Hn Hh| | | | | | | |]; subst.
     set (f := fun kv : pv * pv => bind (D (fst kv)) (fun k' => bind (D (snd kv)) (fun v' => Ok (k', v')))).
     set (g := fun kv : pv * pv => bind (L kt (fst kv)) (fun k' => bind (L vt (snd kv)) (fun v' => Ok (k', v')))).
     assert (HF : Forall (fun kv => exists w, f kv = Ok w /\ g w = Ok kv) kvs).
@@ -522,31 +678,58 @@ Proof.
     + rewrite dump_eq. fold (H0 dc). rewrite disp_dict. fold f. destruct k; rewrite H1; reflexivity.
     + cbn [load]. fold g. rewrite H2. cbn [bind]. rewrite Hh. rewrite (dict_of_pairs_id _ Hn). reflexivity.
   - (* TOptional *)
-    inversion Hr as [| | | | | | | | | | | |?|? ? Hnn Hv| | | | |]; subst.
+    inversion Hr as [| | | | | | | | | | | |?|? ? Hnn Hv| | | | | |]; subst.
     + exists VNone. split; [apply dump_scalar; reflexivity|]. split; [reflexivity|tauto].
     + destruct (IH v Hv) as (w & Hd & Hl & Hw). exists w. split; [assumption|]. split; [|assumption].
       rewrite opt_some by (apply Hw; assumption). assumption.
   - (* TUnion *)
-    inversion Hr as [| | | | | | | | | | | | | |? Hin|? t ? Hin Hok Hnn Hv| | |]; subst.
+    inversion Hr as [| | | | | | | | | | | | | |? Hin|? t ? Hin Hok Hnn Hv| | | |]; subst.
     + exists VNone. split; [apply dump_scalar; reflexivity|]. split; [|tauto].
       apply load_union_none. assumption.
     + eapply Forall_forall in IH; [|exact Hin].
       destruct (IH v Hv) as (w & Hd & Hl & Hw). exists w. split; [assumption|]. split; [|assumption].
       assert (Ht : t <> TNone) by (intros ->; inversion Hv; congruence).
-      assert (Hdist : wires_distinct [] ts = true) by (unfold union_ok in Hok; apply andb_true_iff in Hok; tauto).
-      destruct (union_member_wire ts [] t Hdist Hin Ht) as [k Hk].
-      rewrite (load_union_member ts t w k Hok Hin Hk (shape_of_dump t v k w Hv Hk Hd) (Hw Hnn)). assumption.
+      assert (Hdist : wires_distinct [] ts = true).
+      { unfold union_ok in Hok. apply andb_true_iff in Hok as [Hok' _]. apply andb_true_iff in Hok'; tauto. }
+      destruct (union_member_wire ts [] t Hdist Hin Ht) as [[k Hk]|(c & fts & tg & Et & Htg)].
+      * rewrite (load_union_member ts t w k Hok Hin Hk (shape_of_dump t v k w Hv Hk Hd) (Hw Hnn)). assumption.
+      * (* a tagged dataclass member: reached through the tag, fields loaded by the class's own loader *)
+        assert (Hvi : exists xs, v = VInst c xs /\ keys_ok dc lc c = true).
+        { subst t. inversion Hv; subst. eauto. }
+        destruct Hvi as (xs & -> & Hkc).
+        rewrite (load_union_data ts t c fts tg xs w Et Hok Hin Htg Hkc Hd). assumption.
   - inversion Hr; subst. apply rt_literal; assumption.
   - (* TNamedTuple *)
-    inversion Hr as [| | | | | | | | | | | | | | | | |? ? xs H2|]; subst.
+    inversion Hr as [| | | | | | | | | | | | | | | | |? ? xs H2| |]; subst.
     destruct (zip_f_rt fts xs (Forall2_IH (fun ft : ty * option pv => fst ft) fts xs IH H2)) as (ws & H1 & Hz & Hlen).
     exists (VNT n ws). split; [|split; [|discriminate]].
     + rewrite dump_eq. fold (H0 dc). rewrite disp_nt. rewrite H1. reflexivity.
     + rewrite nt_nondict by discriminate. cbn [iter_of bind]. rewrite Hz. cbn [bind].
       rewrite (zip_slots_full xs _ Hlen), (fill_some fts xs Hlen). reflexivity.
-  - inversion Hr.
+  - (* TTypedDict *)
+    inversion Hr as [| | | | | | | | | | | | | | | | | |? ? ? opt' kvs1 kvs2 Hreq Hsub Hopt Hnd|]; subst.
+    pose proof (Forall2_Qtd req kvs1 IHr Hreq) as Q1.
+    pose proof (Forall2_Qtd opt' kvs2 (sublist_Forall _ _ _ Hsub IHo) Hopt) as Q2.
+    destruct (td_dump _ _ Q1) as (w1 & D1 & M1 & P1). destruct (td_dump _ _ Q2) as (w2 & D2 & M2 & P2).
+    exists (VDict DDict false (w1 ++ w2)). split; [|split; [|discriminate]].
+    + rewrite dump_eq. fold (H0 dc). rewrite disp_dict. fold pairD. rewrite (seqR_app _ _ _ _ _ D1 D2). reflexivity.
+    + cbn [load].
+      assert (Hkeys : map fst (w1 ++ w2) = map VStr (map fst req ++ map fst opt')).
+      { rewrite map_app, M1, M2, (td_keys _ _ Hreq), (td_keys _ _ Hopt), <- map_app. reflexivity. }
+      assert (Hnd' : NoDup (map fst req ++ map fst opt')).
+      { eapply sublist_NoDup; [|exact Hnd]. apply sublist_app_pre. apply sublist_map. exact Hsub. }
+      assert (HnW : NoDup (map fst (w1 ++ w2))) by (rewrite Hkeys; apply NoDup_map_vstr; exact Hnd').
+      specialize (P1 [] w2). specialize (P2 w1 []). cbn [app] in P1. rewrite app_nil_r in P2.
+      rewrite (td_req_rt (w1 ++ w2) HnW req kvs1 P1). cbn [bind].
+      rewrite (td_opt_rt (w1 ++ w2) HnW opt' opt Hsub kvs2 P2 (NoDup_app_r _ _ Hnd)); [reflexivity|].
+      intros kt Hkt Hk. rewrite Hkeys in Hk. apply in_map_iff in Hk as (n & En & Hn). inversion En; subst n.
+      apply in_app_or in Hn as [Hn|Hn].
+      * exfalso. eapply (NoDup_app_disjoint _ _ (fst kt) Hnd); [exact Hn | apply in_map; exact Hkt].
+      * apply in_map_iff in Hn as (kt' & Ef & Hin').
+        assert (kt' = kt) as ->; [|exact Hin'].
+        eapply (NoDup_fst_inj opt); [exact (NoDup_app_r _ _ Hnd) | eapply sublist_In; eassumption | exact Hkt | exact Ef].
   - (* TData *)
-    inversion Hr as [| | | | | | | | | | | | | | | | | |? ? xs Hk Hlen H2]; subst.
+    inversion Hr as [| | | | | | | | | | | | | | | | | | |? ? xs Hk Hlen H2]; subst.
     unfold keys_ok in Hk. apply andb_true_iff in Hk as [Hk Htag].
     assert (Hx : List.length xs = List.length fts).
     { clear -H2. induction H2; cbn; congruence. }
@@ -584,6 +767,15 @@ Proof.
   inversion HF; subst. constructor; auto.
 Qed.
 
+Lemma Forall2_conf_td (l : list (pstr * ty)) kvs :
+  Forall (fun kt => forall v, R (snd kt) v -> conforms (snd kt) v) l ->
+  Forall2 (fun kt kv => fst kv = VStr (fst kt) /\ R (snd kt) (snd kv)) l kvs ->
+  Forall2 (fun kt kv => fst kv = VStr (fst kt) /\ conforms (snd kt) (snd kv)) l kvs.
+Proof.
+  intros HF H2. induction H2 as [|a x l xs [E Hax] _ IH]; [constructor|].
+  inversion HF; subst. constructor; auto.
+Qed.
+
 Theorem rtd_conforms : forall t v, R t v -> conforms t v.
 Proof.
   induction t as [| | | | | |m|k|e ms|k t IH|ts IH|t IH|k kt vt IHk IHv|t IH|ts IH|vs|n fts IH|tid req opt IHr IHo|c fts IH]
@@ -598,6 +790,8 @@ Proof.
   - eapply CUnion; [eassumption|]. eapply Forall_forall in IH; [|eassumption]. auto.
   - constructor. assumption.
   - constructor. apply (Forall2_conf (fun ft : ty * option pv => fst ft)); assumption.
+  - eapply CTD; [apply Forall2_conf_td; eassumption | eassumption |].
+    apply Forall2_conf_td; [eapply sublist_Forall; eassumption | assumption].
   - constructor. apply (Forall2_conf (fun ft : ty * option pv => fst ft)); assumption.
 Qed.
 End Domain.
